@@ -109,6 +109,10 @@ func (m *Model) inferAccount(t *syntax.Transaction, b *syntax.Booking, other str
 			max = score
 		}
 	}
+	if best == "" {
+		// the training data offers no candidate: leave the booking unchanged
+		best = m.account
+	}
 	return syntax.Account{
 		Range: syntax.Range{Start: 0, End: len(best), Text: best},
 	}
